@@ -12,7 +12,8 @@ from .engine import Engine, Ctx, Frame, Oblig, HRef
 class Case:
     """One specification case: when(c) -> guard over the pre-state; kind return|raise; post(c) -> {name: Bool}."""
     def __init__(self, name, when=None, kind='return', exc=None, post=None, result=None, tags=None, exc_fields=None,
-                 update=None, group=None):
+                 update=None, group=None, result_fresh=None):
+        self.result_fresh = result_fresh   # call sites: builds a fresh result value that `post` then constrains
         self.group = group        # cases of one group with overlapping guards are alternatives (nondeterminism of
         #                           application code): a path must satisfy at least one of them
         self.name, self.when, self.kind, self.exc, self.post, self.result, self.tags = name, when, kind, exc, post, result, tags
@@ -31,7 +32,8 @@ class LoopSpec:
 class Contract:
     def __init__(self, target, schema, self_obj, params, cases, requires=None, modifies=(), loops=None, props=(),
                  must_fail=None, also=(), note='', self_rec=None, app_raises=None, env_hook=None, trusted=False,
-                 summary=None, abstraction=''):
+                 summary=None, abstraction='', inline=()):
+        self.inline = set(inline)     # callees executed from their body here although they have a contract
         self.summary = summary        # cases used at call sites when they speak about an abstract effect that the
         self.abstraction = abstraction  # body cases define (stated in `abstraction`)
         self.target = target          # 'module.Class.method'
@@ -216,6 +218,8 @@ def apply_at_call(eng, ctx, contract, obj, node, args, kwargs, qual, self_val=No
                 result = S(smt.fresh('res_' + contract.target.split('.')[-1], I))
             elif callable(case.result):
                 result = case.result(cc)
+            if case.result_fresh is not None:
+                result = case.result_fresh(cc)
             cc.result = result
         else:
             fields = case.exc_fields(cc) if case.exc_fields else {}
@@ -466,6 +470,12 @@ def _verify_body(eng, contract, target, mod, cname, node, res, seed, timeout_ms,
                 r = smt.refute_qf(hyps, goal, seed=seed)
             statuses.append(r['status'])
             backend.add(r['backend'])
+            import os as _os
+            if _os.environ.get('PYVC_DEBUG') and _os.environ['PYVC_DEBUG'] in name and r['status'] != 'proved' and item['expect'] == 'proved':
+                print('=== DEBUG %s: %s' % (name, r['status']))
+                for h in hyps:
+                    print('  HYP', str(h).replace('\n', ' ')[:400])
+                print('  GOAL', str(goal).replace('\n', ' ')[:800])
             if r['status'] == 'refuted' and item['expect'] == 'proved' and model_txt is None and want_models:
                 model_txt = _model_text(r.get('model'), hyps)
             if r['status'] != 'proved' and item['expect'] == 'proved':
